@@ -501,28 +501,34 @@ impl RowIdTreeMap {
 
     /// Insert a range of values into the set
     pub fn insert_range<R: RangeBounds<u64>>(&mut self, range: R) -> u64 {
-        // Separate the start and end into high and low bits.
-        let (mut start_high, mut start_low) = match range.start_bound() {
-            std::ops::Bound::Included(&start) => ((start >> 32) as u32, start as u32),
-            std::ops::Bound::Excluded(&start) => {
-                let start = start.saturating_add(1);
-                ((start >> 32) as u32, start as u32)
-            }
-            std::ops::Bound::Unbounded => (0, 0),
+        // Inclusive start and end.  An empty range inserts nothing.
+        let start = match range.start_bound() {
+            std::ops::Bound::Included(&start) => start,
+            std::ops::Bound::Excluded(&start) => match start.checked_add(1) {
+                Some(start) => start,
+                None => return 0,
+            },
+            std::ops::Bound::Unbounded => 0,
         };
+        let end = match range.end_bound() {
+            std::ops::Bound::Included(&end) => end,
+            std::ops::Bound::Excluded(&end) => match end.checked_sub(1) {
+                Some(end) => end,
+                None => return 0,
+            },
+            std::ops::Bound::Unbounded => u64::MAX,
+        };
+        if start > end {
+            return 0;
+        }
 
-        let (end_high, end_low) = match range.end_bound() {
-            std::ops::Bound::Included(&end) => ((end >> 32) as u32, end as u32),
-            std::ops::Bound::Excluded(&end) => {
-                let end = end.saturating_sub(1);
-                ((end >> 32) as u32, end as u32)
-            }
-            std::ops::Bound::Unbounded => (u32::MAX, u32::MAX),
-        };
+        // Separate the start and end into high and low bits.
+        let (mut start_high, mut start_low) = ((start >> 32) as u32, start as u32);
+        let (end_high, end_low) = ((end >> 32) as u32, end as u32);
 
         let mut count = 0;
 
-        while start_high <= end_high {
+        loop {
             let start = start_low;
             let end = if start_high == end_high {
                 end_low
@@ -540,6 +546,9 @@ impl RowIdTreeMap {
                 Some(RowIdSelection::Partial(set)) => {
                     count += set.insert_range(start..=end);
                 }
+            }
+            if start_high == end_high {
+                break;
             }
             start_high += 1;
             start_low = 0;
